@@ -5,7 +5,7 @@ from lib.coqgen import N, Z, b, hx, opt, lst, height
 NAME = "tmverify"
 GO_PKG = "./tmverify"
 COQ_IMPORTS = ("From IBC Require Import Lib.Bytes Lib.Dec Lib.CorrLib Core.Height TmVerify.Util TmVerify.World "
-               "TmVerify.Light Corr.TmVerify.")
+               "TmVerify.Light TmVerify.Writes Corr.TmVerify.")
 CASE_TYPE = "Case"
 CHECK = "check"
 
@@ -207,6 +207,9 @@ def spec_hist_c25(r):
             want = cons_map(pt).get(hpair(pt["lt"]))
             if cons_map(qs).get(hpair(pt["lt"])) != want:
                 return "op %d: recovered subject does not hold the substitute's latest consensus state and metadata" % k
+            its = {hpair(e["h"]): e.get("it") for e in qs["cons"]}
+            if its.get(hpair(pt["lt"])) != ("consensusStates/%d-%d" % hpair(pt["lt"])).encode().hex():
+                return "op %d: recovered subject has no iteration key for the copied height %s" % (k, pt["lt"])
             for h, v in cons_map(ps).items():
                 if h != hpair(pt["lt"]) and cons_map(qs).get(h) != v:
                     return "op %d: recovery changed the subject's consensus state at %s" % (k, h)
@@ -496,5 +499,84 @@ def spec_validate(r):
             return "client state with trust level %d/%d outside [1/3, 1] accepted" % (num, den)
 
 KINDS["validate"] = dict(props=["C24", "C25"], enc=enc_validate, spec=spec_validate, exact=False)
+
+# ------------------------------------------------------------------------------------------- C25: store writes
+
+_CONS = _re.compile(rb"consensusStates/(\d+)-(\d+)(/processedTime|/processedHeight)?")
+ITER_PREFIX = b"iterateConsensusStates"
+
+def decode_key(hexkey):
+    """client-store key -> (kind, height) with kind in clientState / cons / ptime / pheight / iter / other"""
+    k = bytes.fromhex(hexkey)
+    if k == b"clientState":
+        return ("clientState", None)
+    m = _CONS.fullmatch(k)
+    if m:
+        kind = {None: "cons", b"/processedTime": "ptime", b"/processedHeight": "pheight"}[m.group(3)]
+        return (kind, (int(m.group(1)), int(m.group(2))))
+    if k.startswith(ITER_PREFIX) and len(k) == len(ITER_PREFIX) + 16:
+        t = k[len(ITER_PREFIX):]
+        return ("iter", (int.from_bytes(t[:8], "big"), int.from_bytes(t[8:], "big")))
+    return ("other", hexkey)
+
+WK = {"cons": "KCons", "ptime": "KPTime", "pheight": "KPHeight", "iter": "KIter"}
+
+def write_term(ns, w):
+    kind, arg = decode_key(w[1])
+    if kind == "clientState":
+        kt = "KClientState"
+    elif kind == "other":
+        kt = "(KOther %s)" % hx(arg)
+    else:
+        kt = "(%s %s)" % (WK[kind], height(arg))
+    return "(%s, %s, %s)" % (ns, "WSet" if w[0] == "set" else "WDel", kt)
+
+def enc_recwrites(r):
+    sh = Short()
+    o = r["out"]
+    ws = [write_term("NSubject", w) for w in o["subject"]] + [write_term("NSubstitute", w) for w in o["substitute"]]
+    # the model lists writes in code order; writes of the two namespaces are recorded separately, so a write into
+    # the substitute's namespace shows as an extra element (and a missing subject write as a missing one)
+    return "RecWrites %s %s %s [%s]" % (client_term(r["in"]["c"], sh), client_term(r["in"]["s"], sh), RES[o["res"]], "; ".join(ws))
+
+def spec_recwrites(r):
+    """recovery wrote/deleted nothing in the substitute's namespace; what it writes are the subject's client state,
+    the consensus state at the substitute's latest height and its three metadata entries; after a successful call the
+    subject holds processed time, processed height and iteration key for the copied height"""
+    o = r["out"]
+    if o["substitute"]:
+        return "recovery wrote into the substitute's namespace: %s" % [(w[0], bytes.fromhex(w[1])) for w in o["substitute"]]
+    h = hpair(r["in"]["s"]["lt"])
+    allowed = {("clientState", None), ("cons", h), ("ptime", h), ("pheight", h), ("iter", h)}
+    got = [decode_key(w[1]) for w in o["subject"]]
+    for w, g in zip(o["subject"], got):
+        if w[0] != "set" or g not in allowed:
+            return "recovery %s subject key %r (not part of the recovery of height %s)" % (w[0], bytes.fromhex(w[1]), h)
+    if o["res"] == "ok":
+        if set(got) != allowed:
+            return "successful recovery did not write %s in the subject's namespace" % sorted(allowed - set(got), key=str)
+        m = o["meta"]
+        want_it = ("consensusStates/%d-%d" % h).encode().hex()
+        if m["pt"] is None or m["ph"] is None or m["it"] != want_it:
+            return "after recovery the subject lacks metadata for height %s: processedTime=%s processedHeight=%s iterationKey=%s" % (h, m["pt"], m["ph"], m["it"])
+
+def enc_upgwrites(r):
+    o = r["out"]
+    return "UpgWrites %s %s [%s]" % (height(r["in"]["h"]), b(o["res"] == "ok"), "; ".join(write_term("NSubject", w) for w in o["writes"]))
+
+def spec_upgwrites(r):
+    o = r["out"]
+    h = hpair(r["in"]["h"])
+    got = [(w[0],) + decode_key(w[1]) for w in o["writes"]]
+    if o["res"] != "ok":
+        if got:
+            return "failed upgrade wrote %s" % got
+        return None
+    want = {("set", "clientState", None), ("set", "cons", h), ("set", "ptime", h), ("set", "pheight", h), ("set", "iter", h)}
+    if set(got) != want:
+        return "upgrade to %s wrote %s, expected client state, consensus state and its three metadata entries" % (h, got)
+
+KINDS["recwrites"] = dict(props=["C25"], enc=enc_recwrites, spec=spec_recwrites, exact=False)
+KINDS["upgwrites"] = dict(props=["C25"], enc=enc_upgwrites, spec=spec_upgwrites, exact=False)
 
 KNOWN = {}
